@@ -130,24 +130,45 @@ Qed.
 Lemma offsets_from_length n off inc : length (offsets_from n off inc) = n.
 Proof. revert off; induction n; intros; cbn; [reflexivity|]. rewrite IHn. reflexivity. Qed.
 
+(* the media time of a tick count is floor (ticks * 1e9 / timescale): exact to the nanosecond,
+   zero at zero and monotone *)
+Lemma media_time_floor ts ticks :
+  0 < ts -> 0 <= ticks -> ticks * 1000000000 / ts < 2 ^ 63 ->
+  media_time ts ticks = ticks * 1000000000 / ts.
+Proof.
+  intros Hts Ht Hb. unfold media_time.
+  assert (E : ticks * 1000000000 / ts = ticks / ts * 1000000000 + ticks mod ts * 1000000000 / ts).
+  { rewrite (Z.div_mod ticks ts) at 1 by lia.
+    replace ((ts * (ticks / ts) + ticks mod ts) * 1000000000) with (ticks / ts * 1000000000 * ts + ticks mod ts * 1000000000) by ring.
+    rewrite Z.div_add_l by lia. reflexivity. }
+  assert (Hq : 0 <= ticks / ts) by (apply Z.div_pos; lia).
+  assert (Hr : 0 <= ticks mod ts * 1000000000 / ts) by (apply Z.div_pos; [pose proof (Z.mod_pos_bound ticks ts Hts); nia|lia]).
+  assert (W : forall x, 0 <= x < 2 ^ 63 -> i64 x = x).
+  { intros x Hx. unfold i64. rewrite Z.mod_small by lia. destruct (Z.ltb_spec x (2 ^ 63)); [reflexivity|lia]. }
+  rewrite (W (ticks / ts * 1000000000)) by lia. rewrite W by lia. lia.
+Qed.
+
+Lemma media_time_mono ts a b :
+  0 < ts -> 0 <= a <= b -> b * 1000000000 / ts < 2 ^ 63 -> 0 <= media_time ts a <= media_time ts b.
+Proof.
+  intros Hts Hab Hb.
+  assert (Hd : a * 1000000000 / ts <= b * 1000000000 / ts) by (apply Z.div_le_mono; lia).
+  rewrite !media_time_floor by lia. split; [apply Z.div_pos; lia|exact Hd].
+Qed.
+
 (* reading i of n gets start + i*((end-start)/n); the first gets start, none decreases and all
    stay inside [start, end] (strictly below end when the interval is not empty) *)
-Lemma reading_offsets_spec units sm n i :
-  (i < n)%nat -> 0 <= units -> 0 <= sm_start sm <= sm_end sm -> sm_end sm * units < 2 ^ 63 ->
-  let start := sm_start sm * units in let stop := sm_end sm * units in
-  nth i (reading_offsets units sm n) 0 = start + Z.of_nat i * ((stop - start) / Z.of_nat n) /\
-  start <= nth i (reading_offsets units sm n) 0 <= stop /\
-  (start < stop -> nth i (reading_offsets units sm n) 0 < stop).
+Lemma reading_offsets_spec ts sm n i :
+  (i < n)%nat ->
+  let start := media_time ts (sm_start sm) in let stop := media_time ts (sm_end sm) in
+  0 <= start <= stop -> stop < 2 ^ 63 ->
+  nth i (reading_offsets ts sm n) 0 = start + Z.of_nat i * ((stop - start) / Z.of_nat n) /\
+  start <= nth i (reading_offsets ts sm n) 0 <= stop /\
+  (start < stop -> nth i (reading_offsets ts sm n) 0 < stop).
 Proof.
-  intros Hi Hu [H0 Hse] Hb start stop.
-  assert (Hst : 0 <= start <= stop) by (unfold start, stop; nia).
-  assert (Hsb : stop < 2 ^ 63) by exact Hb.
+  intros Hi start stop Hst Hsb.
   unfold reading_offsets. destruct n as [|n']; [lia|]. set (n := S n') in *.
-  assert (E1 : i64 (sm_start sm * units) = start).
-  { unfold i64. fold start. rewrite Z.mod_small by lia. destruct (Z.ltb_spec start (2 ^ 63)); [reflexivity|lia]. }
-  assert (E2 : i64 (sm_end sm * units) = stop).
-  { unfold i64. fold stop. rewrite Z.mod_small by lia. destruct (Z.ltb_spec stop (2 ^ 63)); [reflexivity|lia]. }
-  rewrite E1, E2.
+  fold start stop.
   assert (E3 : i64 (stop - start) = stop - start).
   { unfold i64. rewrite Z.mod_small by lia. destruct (Z.ltb_spec (stop - start) (2 ^ 63)); [reflexivity|lia]. }
   rewrite E3. rewrite Z.quot_div_nonneg by lia.
@@ -159,6 +180,20 @@ Proof.
   split; [reflexivity|]. split; [nia|]. intros Hlt.
   assert (Z.of_nat i <= Z.of_nat n - 1) by lia.
   destruct (Z.eq_dec inc 0) as [->|Hne]; [lia|]. nia.
+Qed.
+
+(* ... with start and end the exact media times of the sample's boundaries *)
+Corollary reading_offsets_media_time ts sm n i :
+  (i < n)%nat -> 0 < ts -> 0 <= sm_start sm <= sm_end sm -> sm_end sm * 1000000000 / ts < 2 ^ 63 ->
+  let start := sm_start sm * 1000000000 / ts in let stop := sm_end sm * 1000000000 / ts in
+  nth i (reading_offsets ts sm n) 0 = start + Z.of_nat i * ((stop - start) / Z.of_nat n) /\
+  start <= nth i (reading_offsets ts sm n) 0 <= stop.
+Proof.
+  intros Hi Hts Hse Hb start stop.
+  assert (Hd : sm_start sm * 1000000000 / ts <= sm_end sm * 1000000000 / ts) by (apply Z.div_le_mono; lia).
+  pose proof (media_time_mono ts (sm_start sm) (sm_end sm) Hts Hse Hb) as Hm.
+  destruct (reading_offsets_spec ts sm n i Hi) as [A [B _]]; [exact Hm|rewrite media_time_floor by lia; exact Hb|].
+  rewrite !media_time_floor in A, B by lia. split; assumption.
 Qed.
 
 (* ---- where each sample's bytes are read from ---- *)
